@@ -338,6 +338,8 @@ class MonitoredFocusList(MonitoredList[_T], typing.Generic[_T]):
 
         focus = self._focus
         if step == 1:
+            # an empty slice (stop < start) removes nothing: it is an insertion point at start
+            stop = max(start, stop)
             if start + num_new_items <= focus < stop:
                 focus = stop
             # adjust for added/removed items
@@ -346,12 +348,15 @@ class MonitoredFocusList(MonitoredList[_T], typing.Generic[_T]):
 
         else:  # noqa: PLR5501  # pylint: disable=else-if-used  # readability
             if not num_new_items:
-                # extended slice being removed
-                if focus in range(start, stop, step):
+                # extended slice being removed: the removed positions in ascending order
+                removed = range(start, stop, step)
+                if step < 0:
+                    removed = removed[::-1]
+                while focus in removed:
                     focus += 1
 
                 # adjust for removed items
-                focus -= len(list(range(start, min(focus, stop), step)))
+                focus -= len(range(removed.start, min(focus, removed.stop), removed.step))
 
         return min(focus, len(self) + num_new_items - num_removed - 1)
 
